@@ -250,7 +250,8 @@ def prog_lookback(rng, **kw):
     sel = rng.choice(["all", "hasdata", "momentum", "setstat", "where", "these", "stat_n", "random", "regex"])
     wg = rng.choice(["equal", "invvol", "erc", "target", "equal_tv", "equal_ld", "equal_lw", "random", "equal", "invvol", "equal_sw", "pte", "dead"])
     # a dated target / statistic names tickers whatever their price: no late listings there
-    late_ok = wg not in ("target", "pte", "dead") and sel != "setstat"
+    # (nor with the covariance estimators: a ticker listed for one or two dates has no sample variance)
+    late_ok = wg not in ("target", "pte", "dead", "invvol", "erc", "equal_tv") and sel != "setstat"
     prog = base_prog(rng, late=late_ok and rng.random() < 0.4, **kw)
     cols = prog["cols"]
     T = prog["T"]
